@@ -5,6 +5,12 @@ ENGINES = [
     {"name": "E2-sched", "path": "mc/sched.py", "serves_properties": ["C02", "C05"],
      "kind_free_text": "stateless preemption-bounded exploration of the real joblib thread-pool tasks under a baton "
                        "scheduler (sys.settrace scheduling points), one pool invocation at a time"},
+    {"name": "E4-itersets", "path": "mc/itersets.py", "serves_properties": ["C16"],
+     "kind_free_text": "controlled set subclass shadowing `set` in mokapot.parsers.fasta; each iteration is a choice point, "
+                       "deviation-bounded re-execution with forced choice prefixes"},
+    {"name": "E3-faults", "path": "mc/faults.py", "serves_properties": ["C09"],
+     "kind_free_text": "fault injector over the file-mutating calls (to_csv, to_parquet, ParquetWriter, unlink, move, "
+                       "open) + explicit-state BFS over canonical directory states"},
     {"name": "E1-enum", "path": "mc/core.py", "serves_properties": ["C01", "C02", "C03", "C05", "C07", "C11", "C12", "C13", "C14", "C17", "C18", "C19", "C20"],
      "kind_free_text": "bounded exhaustive enumeration of inputs/configurations/operation sequences on the real code "
                        "with reference-model or differential oracle; 16 forked workers"},
@@ -167,6 +173,48 @@ CHECKS.update({
              "q-values in the returned direction.",
         note="feat_pass/best_feat/desc are read from the returned models (public attributes named by the property). "
              "Known finding F06 (ascending direction ignored by assign_confidence) is reported as KNOWN-FINDING."),
+})
+
+CHECKS.update({
+    "C09": dict(
+        level="fault_enumeration", engine="E3-faults", design="DESIGN.md 4/C09",
+        technique="explicit-state breadth-first search over directory states reached by injecting every fault kind at "
+                  "every intercepted file-mutating call of assign_confidence / brew_rollup / CLI runs; invariant "
+                  "(fault-free run equals pristine-directory run) evaluated in every reached state",
+        text="Every write/append/unlink/move/open call of each run configuration is a crash point for five fault kinds "
+             "(I/O error before/after, kill before/after with dead-mode cleanup, torn write); the resulting directory "
+             "contents are de-duplicated states; in every state each configuration is run fault-free and must produce "
+             "byte-identical result files, leave no intermediate file of its own, and (CLI) leave the user's PIN equal "
+             "to the conversion of the original. Histories of 2 (quick) / 3 (thorough) earlier failed runs.",
+        note="Crash granularity = intercepted calls; depth >1 is expanded from a capped number of states (reported in "
+             "caps_hit); max_workers=1."),
+})
+
+CHECKS.update({
+    "C15": dict(
+        level="exploration", engine="E1-enum", design="DESIGN.md 4/C15",
+        technique="exhaustive enumeration of mirrored target/decoy databases (<=3 pairs, up to renaming) x entry orders x "
+                  "retained peptide subsets x all score rank permutations x notation variants vs a picked-protein "
+                  "reference; end to end through assign_confidence(proteins=...)",
+        text="picked_protein is called directly and through assign_confidence on every canonical mirrored database, "
+             "every retained subset of its peptides (shared ones included) with every assignment of score ranks and "
+             "every peptide notation (flanks, bracket/parenthesis modifications, lower-case tags): exactly one entry "
+             "per target/decoy pair with a retained unique peptide, won by the best unique peptide and reporting it, "
+             "shared peptides never contributing, protein q-values by the C01 formula over these entries.",
+        note="Every peptide maps (unique or shared) except in a tiny negative family; target-only FASTA (random decoy "
+             "matching) is not explored."),
+    "C16": dict(
+        level="exploration", engine="E1-enum + E4-itersets", design="DESIGN.md 4/C16",
+        technique="exhaustive enumeration of all protein/peptide incidence structures (<=4 x <=4) x all entry orders + "
+                  "deviation-bounded exploration of every hash-set iteration order inside parsers.fasta (controlled "
+                  "set subclass), conformance run over PYTHONHASHSEED 0..7",
+        text="read_fasta is run on every multiset of <=4 proteins over the 16 subsets of 4 peptides in every entry order "
+             "(plus decoy-prefixed, other-prefix and missed-cleavage variants); groups reconstructed from the returned "
+             "maps must cover every digested protein, be generated by a member, form an antichain, agree with the "
+             "unique/shared peptide maps and the target->decoy pairing, and be identical across entry orders and across "
+             "every explored iteration order of the sets used while grouping (0/1 deviations quick, 2 thorough).",
+        note="A protein contained in two maximal proteins must be in at least one group; order of names inside a group "
+             "string is free."),
 })
 
 NA = {
